@@ -137,6 +137,12 @@ func battery() []attempt {
 		}
 	}
 	as = append(as, attempt{"ref", unknownFragment, 1}, attempt{"ref", unknownFragment, 2})
+	// mode values outside the enumeration
+	for _, f := range []string{"None", "Basic256Sha256"} {
+		for _, m := range []int{4, 255} {
+			as = append(as, attempt{"ref", f, m})
+		}
+	}
 	// the same, but the FIRST OpenSecureChannel request of the connection says
 	// RequestType = Renew (no conforming client does; added after seed C30-B)
 	for _, f := range policyFragments {
@@ -626,12 +632,14 @@ func checkConfig(cfg []int, attempts []attempt) (fails []failure, known int, inf
 			rec.Class("first-OPN-says-Renew:configured-pair-refused(allowed)")
 		case configured && !o.usable():
 			fails = append(fails, failure{mk(a), fmt.Sprintf("pair %s is configured but attempt %s got no usable channel (opened=%v answered=%v: %s)", name, a, o.Opened, o.Answered, o.Detail)})
-		case !configured && o.usable():
+		case !configured && (o.usable() || (o.Opened && !strings.Contains(o.Detail, "sent in the clear"))):
+			// a verified OpenSecureChannelResponse with a token IS an established
+			// channel, whether or not the first request on it gets an answer
 			if rec.Known(sigOpen) {
 				known++
 				rec.Class("known:" + sigOpen)
 			} else {
-				fails = append(fails, failure{mk(a), fmt.Sprintf("pair %s is NOT configured (configured: %v) but attempt %s opened a channel and had a request answered on it", name, want, a)})
+				fails = append(fails, failure{mk(a), fmt.Sprintf("pair %s is NOT configured (configured: %v) but attempt %s opened a channel (token issued; first request answered: %v)", name, want, a, o.Answered)})
 			}
 		}
 		// (3) advertisement over the wire, on every channel that answered
